@@ -1017,6 +1017,8 @@ class RegistryCorr(Corr):
 class C18(Prop):
     id = "C18"
     props_file = "Props/C18.v"
+    # redundant tie (core.gen_tie): these functions, translated from the source on every run, equal the hand model for all inputs
+    gen_tie_theorems = ['GenTie_TransformKey___init__', 'GenTie_load_key', 'GenTie_HomogeneousMatrix_labels', 'GenTie_TransformKey___eq__', 'GenTie_TransformKey___eq___model', 'GenTie_TransformKey___hash__', 'GenTie_TransformDict___init__', 'GenTie_get', 'GenTie_get_outside', 'GenTie___getitem__', 'GenTie___getitem___outside', 'GenTie___setitem__', 'GenTie___setitem___outside', 'GenTie___delitem__', 'GenTie___delitem___outside', 'GenTie_inv', 'GenTie_dot', 'GenTie_transform', 'GenTie_transform_key', 'GenTie_transform_outside', 'GenTie_transform_model']
     gen_files = ["Enums.v"]
     design_ref = "DESIGN.md section 4, C18"
     technique = ("Rocq proof over rational quaternions (polynomial identities by ring; unit norm as hypothesis) and an association-list "
